@@ -103,10 +103,12 @@ def parse_out(out, target="t.rb"):
         if m and not raw.startswith(("%", "$")):
             lines.append({"kind": "h" if m.group(1) else "d", "file": m.group(2), "row": int(m.group(3)),
                           "msg": m.group(4)})
-        elif raw.startswith("%") and raw.count(":::") >= 2:
+        elif raw.startswith("%") and raw.count(":::") >= 1:
             lines.append({"kind": "s", "file": "", "row": 0, "msg": raw})
         elif raw.startswith("$") and raw.count(":::") >= 1:
             lines.append({"kind": "x", "file": "", "row": 0, "msg": raw})
+        elif raw.startswith("@") and raw.count(":::") >= 1:
+            lines.append({"kind": "a", "file": "", "row": 0, "msg": raw})
         else:
             lines.append({"kind": "?", "file": "", "row": 0, "msg": raw})
     return lines
